@@ -16,6 +16,7 @@ func main() {
 		harness.Layer{Name: "ingress", Run: layerIngress},
 		harness.Layer{Name: "directed", Run: layerDirected},
 		harness.Layer{Name: "stalled", Run: layerStalled},
+		harness.Layer{Name: "tombstone", Run: layerTombstone},
 		harness.Layer{Name: "cluster", Run: layerCluster},
 	)
 }
